@@ -286,6 +286,9 @@ SPECIAL = [
     ('dot-slash-name', b'i = 7\ninclude("@./f1.conf")\nl += {2}', {b'./f1.conf': b'i = 8\n'}, b'i = 7\ni = 8\nl += {2}'),
     ('dot-slash-dot-file-nested', b'sec { include("@./.f1.conf") }', {b'./.f1.conf': b'include("@.f2.conf")\n', b'.f2.conf': b'x = 4\n'}, b'sec { x = 4 }'),
     ('directory-then-dot-dot', b'include("@dir/../f1.conf")', {b'dir/../f1.conf': b'i = 8\n', b'dir/keep': b''}, b'i = 8'),
+    # a relative name means what it means for the top-level text: not "next to the file that says include"
+    ('same-name-next-to-the-including-file', b'include("@dir/f1.conf")', {b'dir/f1.conf': b'include("@f2.conf")\n', b'f2.conf': b'i = 8\n', b'dir/f2.conf': b'}}} not this one'}, b'i = 8'),
+    ('name-only-next-to-the-including-file', b'include("@dir/f1.conf")\ni = 7', {b'dir/f1.conf': b'include("g.conf")\n', b'dir/g.conf': b'i = 8\n'}, None),
     ('unterminated-string-in-file', b'include("@f1.conf")\ni = 8', {b'f1.conf': b's = "abc'}, None),
     ('unterminated-comment-in-file', b'include("@f1.conf")\ni = 8', {b'f1.conf': b'i = 7 /* abc'}, None),
     ('titled-instances-across-files', b'include("@f1.conf") include("@f2.conf")', {b'f1.conf': b'm { x = 1 }', b'f2.conf': b'm { x = 2 } m { }'}, b'm { x = 1 } m { x = 2 } m { }'),
